@@ -355,6 +355,10 @@ func pegRequests(rng *rand.Rand, g *world.Gen) func(uint32, *world.BlockSpec) {
 		}
 		n := []int{1, 1, 2, 3, 5, 8}[rng.Intn(6)]
 		equal := rng.Intn(3) == 0
+		// flood: every request is worth one to three banks, except one worth one or
+		// two units of PEG whose share of the bank rounds to zero
+		flood := !equal && n >= 3 && rng.Intn(3) == 0
+		tinyDone := false
 		var eqAmt uint64
 		used := map[int]bool{}
 		for i := 0; i < n; i++ {
@@ -375,6 +379,13 @@ func pegRequests(rng *rand.Rand, g *world.Gen) func(uint32, *world.BlockSpec) {
 				// a request so small that its share of an oversubscribed bank rounds
 				// to zero: everything it put in must come back as a refund
 				amt = uint64(1 + rng.Intn(3))
+			}
+			if flood {
+				amt = bankInSrc * uint64(1+rng.Intn(3))
+				if !tinyDone && i > 0 && last != nil && last[x.asset] > 0 {
+					tinyDone = true
+					amt = uint64(1+rng.Intn(2)) * (last[model.PEG]/last[x.asset] + 1)
+				}
 			}
 			if equal {
 				if eqAmt == 0 {
